@@ -14,7 +14,7 @@ import (
 	"github.com/google/martian/v3/zzverif/vf"
 )
 
-func newTestConfig() *Config {
+func zznewTestConfig() *Config {
 	if vf.Symbolic() {
 		// the engine models crypto/x509: build the configuration around a model CA
 		ca := &x509.Certificate{Subject: pkix.Name{CommonName: "ca"}, IsCA: true, Raw: []byte("CA-DER")}
@@ -39,13 +39,13 @@ func newTestConfig() *Config {
 
 // hostCase is a requested host: what the client names, and what the
 // certificate must be valid for (port stripped).
-type hostCase struct {
+type zzhostCase struct {
 	requested string
 	name      string
 	isIP      bool
 }
 
-func symLabel(name string, n int) string {
+func zzsymLabel(name string, n int) string {
 	s := vf.String(name, n)
 	for i := 0; i < len(s); i++ {
 		c := s[i]
@@ -54,26 +54,26 @@ func symLabel(name string, n int) string {
 	return s
 }
 
-func pickHost() hostCase {
+func zzpickHost() zzhostCase {
 	switch vf.Choice("host-kind", 6) {
 	case 0: // DNS name, symbolic letters in any case
-		h := symLabel("label", 2) + ".Ex"
-		return hostCase{h, h, false}
+		h := zzsymLabel("label", 2) + ".Ex"
+		return zzhostCase{h, h, false}
 	case 1:
-		h := symLabel("label", 1) + ".test"
-		return hostCase{h + ":443", h, false}
+		h := zzsymLabel("label", 1) + ".test"
+		return zzhostCase{h + ":443", h, false}
 	case 2:
-		return hostCase{"10.0.0.1", "10.0.0.1", true}
+		return zzhostCase{"10.0.0.1", "10.0.0.1", true}
 	case 3:
-		return hostCase{"10.0.0.1:8443", "10.0.0.1", true}
+		return zzhostCase{"10.0.0.1:8443", "10.0.0.1", true}
 	case 4:
-		return hostCase{"[::1]:443", "::1", true}
+		return zzhostCase{"[::1]:443", "::1", true}
 	default:
-		return hostCase{"::1", "::1", true}
+		return zzhostCase{"::1", "::1", true}
 	}
 }
 
-func checkCert(c *Config, tc *tls.Certificate, h hostCase, tag string) {
+func zzcheckCert(c *Config, tc *tls.Certificate, h zzhostCase, tag string) {
 	vf.Assert(tc != nil && tc.Leaf != nil, tag+":certificate-returned")
 	if tc == nil || tc.Leaf == nil {
 		return
@@ -92,11 +92,11 @@ func checkCert(c *Config, tc *tls.Certificate, h hostCase, tag string) {
 
 // VerifC06Issue: every host spelling, via SNI or via the fallback host.
 func VerifC06Issue() {
-	c := newTestConfig()
+	c := zznewTestConfig()
 	// the configured lifetime of forged certificates, from the default to many years: whatever it
 	// is, a certificate must be valid at the moment it is issued for a handshake
 	c.SetValidity([]time.Duration{time.Hour, 20 * time.Hour, 400 * 24 * time.Hour, 3 * 365 * 24 * time.Hour, 10 * 365 * 24 * time.Hour}[vf.Choice("validity", 5)])
-	h := pickHost()
+	h := zzpickHost()
 	var tc *tls.Certificate
 	var err error
 	vf.WatchOn()
@@ -107,14 +107,14 @@ func VerifC06Issue() {
 	}
 	vf.WatchOff()
 	vf.Assert(err == nil, "issue:no-error")
-	checkCert(c, tc, h, "issue")
+	zzcheckCert(c, tc, h, "issue")
 	vf.Assert(c.certs[h.name] == tc, "issue:cached-under-the-requested-name")
 	vf.Reach("done")
 }
 
 // VerifC06NoName: neither SNI nor a fallback host: refused, nothing issued.
 func VerifC06NoName() {
-	c := newTestConfig()
+	c := zznewTestConfig()
 	tc, err := c.TLS().GetCertificate(&tls.ClientHelloInfo{ServerName: ""})
 	vf.Assert(err != nil && tc == nil, "no-name:handshake-refused")
 	vf.Assert(len(c.certs) == 0, "no-name:nothing-issued")
@@ -124,17 +124,17 @@ func VerifC06NoName() {
 // VerifC06Cache: two requests for the same or for different names with time
 // passing in between (up to and beyond the validity window).
 func VerifC06Cache() {
-	c := newTestConfig()
-	h1 := hostCase{"a.example:443", "a.example", false}
+	c := zznewTestConfig()
+	h1 := zzhostCase{"a.example:443", "a.example", false}
 	h2 := h1
 	if vf.Choice("second-name-differs", 2) == 1 {
-		h2 = hostCase{"b.example:443", "b.example", false}
+		h2 = zzhostCase{"b.example:443", "b.example", false}
 	}
 	vf.WatchOn()
 	t1, err1 := c.TLSForHost(h1.requested).GetCertificate(&tls.ClientHelloInfo{})
 	vf.WatchOff()
 	vf.Assert(err1 == nil, "cache:first-issued")
-	checkCert(c, t1, h1, "cache-first")
+	zzcheckCert(c, t1, h1, "cache-first")
 	// time passes: within the window, just before its end, at its end, just after, long after
 	steps := []int64{0, 1800, 3500, 3700, 7200, 360000} // the model clock also advances one second per reading
 	dt := steps[vf.Choice("elapsed", len(steps))]
@@ -157,7 +157,7 @@ func VerifC06Cache() {
 	t2, err2 := c.TLSForHost(h2.requested).GetCertificate(&tls.ClientHelloInfo{})
 	vf.WatchOff()
 	vf.Assert(err2 == nil, "cache:second-issued")
-	checkCert(c, t2, h2, "cache-second")
+	zzcheckCert(c, t2, h2, "cache-second")
 	if h2.name == h1.name {
 		if stillValid {
 			vf.Assert(t2 == t1, "cache:reused-while-it-still-verifies")
